@@ -23,7 +23,7 @@ func loopBackWithout(o *Ob, l *Loop, barrier func(ssa.Instruction) bool, cut fun
 
 func init() {
 	propInfos["C19"] = &propInfo{
-		Explanation: "Decides the transport's dispatch structure: (1) Channel.Broadcast wraps the update in a Part with the channel's key, drops only on a marshal error, enqueues oversized messages without blocking and otherwise hands them to the gossip queue; the oversize predicate is the single function OversizedMessage (len > MaxGossipPacketSize/2) also used by the states to suppress re-gossip; (2) a full oversize queue is counted; (3) every dequeued oversized message is sent to every peer returned by peers() (all members but self), failures counted, no early exit; (4) NotifyMsg drops undecodable messages and unknown keys and merges exactly the addressed state, states read under the lock; (5) the full-state exchange merges every part independently (no exit from the parts loop but exhaustion) and LocalState contains every registered state; (6) AddState registers the state under the lock before handing out the channel.",
+		Explanation: "Decides the transport's dispatch structure: (1) Channel.Broadcast wraps the update in a Part with the channel's key, drops only on a marshal error, enqueues oversized messages without blocking and otherwise hands them to the gossip queue; the oversize predicate is the single function OversizedMessage (len > MaxGossipPacketSize/2) also used by the states to suppress re-gossip; (2) a full oversize queue is counted; (3) every dequeued oversized message is sent to every peer returned by peers() (all members but self), failures counted, no early exit; (4) NotifyMsg drops undecodable messages and unknown keys and merges exactly the addressed state, states read under the lock; (5) the full-state exchange merges every part independently (no exit from the parts loop but exhaustion) and LocalState contains every registered state; (6) AddState registers the state under the lock before handing out the channel; the gossip packet buffer is at least MaxGossipPacketSize, twice the oversize threshold.",
 		NotDecided:  "delivery by memberlist itself (gossip fan-out, TCP push/pull), cluster membership dynamics, queue capacity sufficiency.",
 		Trusted:     []string{"hashicorp/memberlist delivers queued broadcasts and reliable sends to live peers"},
 	}
